@@ -30,6 +30,8 @@ def run(prog, chk):
     chk.rule('R16.F', 'sibling agreement: every constructor-argument check instantiates the parameter list of a generic class (or matches an empty list)')
     _context_discipline(prog, chk, fns)
     _ctor_params_instantiated(prog, chk, fns)
+    chk.rule('R16.G', 'every visitor of a declaration with a body sets the return context that visit(ReturnStatement) decides from')
+    _return_context_rule(prog, chk, fns)
     _nesting_counter_rule(prog, chk, fns)
     visits = {}
     for f in fns:
@@ -466,6 +468,42 @@ def _ctor_params_instantiated(prog, chk, fns):
                        'in force: `class Child<X, Y> extends Pair<X, Y> { … super(x, y) … }` is rejected although every argument has the parameter\'s type',
                        key='ctor-params:' + label[:60])
     chk.count('constructor-argument checks', n, 3)
+
+
+
+def _return_context_rule(prog, chk, fns):
+    """R16.G — "return <value> in a void function, bare return in a non-void one" is decided by visit(ReturnStatement) from analyser
+    members that describe the callable being analysed.  Every visitor of a declaration that has a body of statements (function,
+    method, constructor, destructor) sets each of those members itself before it visits the body: a visitor that does not leaves the
+    body to be checked against whatever the last callable left behind (`return 5;` in a destructor was accepted, `return;` rejected)."""
+    rv = [f for f in fns if f.short == 'visit' and f.cls == AN and f.params and f.params[0]['type'].split('::')[-1].replace(' &', '') == 'ReturnStatement']
+    if len(rv) != 1:
+        raise AnalysisBroken('visit(ReturnStatement) not found')
+    members = sorted({n['name'] for n in SX.walk(rv[0].body) if n.get('k') == 'member' and SX.is_this_member(n)})
+    if not members:
+        raise AnalysisBroken('visit(ReturnStatement) consults no analyser member')
+    n = 0
+    for f in fns:
+        if f.short != 'visit' or f.cls != AN or not f.params:
+            continue
+        tn = f.params[0]['type'].replace('const ', '').replace(' &', '').strip()
+        rec = prog.facts.records.get(tn)
+        if not rec or not tn.endswith('Declaration'):
+            continue
+        if not any(fl['name'] == 'body' and 'BlockStatement' in fl['type'] for fl in rec.get('fields', [])):
+            continue
+        pid = f.params[0].get('id')
+        visits_body = any(x.get('k') == 'member' and x.get('name') == 'body' and SX.is_node(SX.strip(x.get('base'))) and SX.strip(x['base']).get('id') == pid
+                          for x in SX.walk(f.body, into_lambdas=False))
+        if not visits_body:
+            continue
+        for m in members:
+            n += 1
+            sets = [x for x in SX.walk(f.body, into_lambdas=False) for w in [SX.write_target(x)] if w and w[2] == '=' and SX.is_this_member(SX.strip(w[0]), m)]
+            chk.ob('R16.G', f, f.ln, bool(sets),
+                   'visit(%s) analyses a body of statements but does not set %s, which visit(ReturnStatement) decides from: returns in that body are checked against what the last callable '
+                   'left behind' % (tn.split('::')[-1], m), key='return-context:%s:%s' % (tn.split('::')[-1], m))
+    chk.count('callable-body visitors × return-context members', n, 6)
 
 
 def _nesting_counter_rule(prog, chk, fns):
